@@ -112,7 +112,16 @@ func (f *faultReader) Read(p []byte) (int, error) {
 	if len(p) == 0 {
 		return 0, nil
 	}
-	remain := f.k - f.pos
+	limit := f.k
+	once := strings.HasSuffix(f.mode, "-once")
+	if once && f.fired {
+		// a transient fault: reported once, the stream carries on afterwards and ends normally
+		limit = len(f.data)
+		if f.pos >= limit {
+			return 0, io.EOF
+		}
+	}
+	remain := limit - f.pos
 	if remain <= 0 {
 		if f.mode == "cut" {
 			return 0, io.EOF
@@ -128,7 +137,7 @@ func (f *faultReader) Read(p []byte) (int, error) {
 	}
 	copy(p, f.data[f.pos:f.pos+n])
 	f.pos += n
-	if f.pos == f.k && f.mode == "errN" {
+	if f.pos == f.k && (f.mode == "errN" || (f.mode == "errN-once" && !f.fired)) {
 		return n, f.fault()
 	}
 	return n, nil
@@ -482,12 +491,15 @@ func runC18(w *mon.W) {
 				if a.sized && k > 64 && k < len(a.data)-64 && k%(len(a.data)/16+1) != 0 {
 					continue
 				}
-				for _, mode := range []string{"err0", "errN", "cut"} {
+				for _, mode := range []string{"err0", "errN", "cut", "errN-once", "err0-once"} {
 					if k == len(a.data) && mode == "cut" {
 						continue // a cut at the end is no fault
 					}
-					if mode == "errN" && k == 0 {
+					if strings.HasPrefix(mode, "errN") && k == 0 {
 						continue
+					}
+					if strings.HasSuffix(mode, "-once") && (k+ai)%4 != 0 && k != len(a.data) && k != len(a.data)/2 {
+						continue // (transient faults: every fourth offset, the middle and the end)
 					}
 					// the kind of fault rotates with the offset; at the very end (every byte was
 					// delivered, then the stream fails instead of ending) and in the middle all kinds are tried
@@ -566,7 +578,7 @@ func runC18(w *mon.W) {
 								sig += "/" + faultName(fl)
 							}
 							w.Violate(sig,
-								fmt.Sprintf("%s returns success although the stream %s at byte %d of %d (fault: %v)", api.name, map[string]string{"err0": "failed (0,err)", "errN": "failed (n>0,err)", "cut": "ended early"}[mode], k, len(a.data), fl), m)
+								fmt.Sprintf("%s returns success although the stream %s at byte %d of %d (fault: %v)", api.name, map[string]string{"err0": "failed (0,err)", "errN": "failed (n>0,err)", "cut": "ended early", "errN-once": "reported a failure once, together with data, and carried on", "err0-once": "reported a failure once and carried on"}[mode], k, len(a.data), fl), m)
 						}
 					}
 				}
